@@ -1201,12 +1201,14 @@ class ComplexGammatoneFilterBank(LinearFilterBank):
                 v *= (n - 1) - alpha * t
                 return v
 
+            # right is measured from the onset of the filter: _h takes a sample
+            # index, which differs by the offset when the filter is max-centered
             right = (n - 1 + np.sqrt((n - 1) / 2)) / alpha
-            h_0 = np.abs(self._h(right, idx))
+            h_0 = np.abs(self._h(right + offset, idx))
             while h_0 > eps:
                 d_0 = _d(right)
                 right -= h_0 / d_0
-                h_0 = np.abs(self._h(right, idx))
+                h_0 = np.abs(self._h(right + offset, idx))
         return (int(np.floor(offset)), int(np.ceil(right) + offset))
 
 
